@@ -14,6 +14,7 @@ import itertools
 import json
 import os
 import re
+import time
 
 import common as C
 import c04_util as U
@@ -286,11 +287,7 @@ def classify(prog, what):
     """Stable trigger string of an oracle failure, decidable on the input."""
     if any(any(ord(ch) > 127 for ch in c["name"]) for c in prog["classes"]) and what in ("marker", "inline", "media", "fragment"):
         return "c04-nonascii-classname"
-
-    def has_ph(nodes):
-        return any(nd[0] in ("jsdep", "cssdep") or (nd[0] in ("for", "if", "el") and has_ph(nd[2])) or
-                   (nd[0] == "slot" and has_ph(nd[1])) or (nd[0] == "c" and nd[2] and has_ph(nd[2])) for nd in nodes)
-    if what == "placeholder" and any(has_ph(c["tpl"]) for c in prog["classes"]):
+    if what == "placeholder" and U.has_node({"page": [], "classes": prog["classes"]}, ("jsdep", "cssdep")):
         return "c04-placeholder-multi-id"
     return "c04-e2e-" + what
 
@@ -299,9 +296,8 @@ def e2e_oracle(chk, bu, typ, path, final, rec):
     """Direct property oracle on the final HTML of one rendering path. Returns the visible instance sequence."""
     prog = bu.prog
     seq, nJ, nC = U.visible(final)
-    clsof = lambda x: bu.page_cls if x == "P" else bu.classes[x]  # noqa: E731
-    order = [clsof(x) for x in U.first_occ(seq)]
-    idx_order = [x for x in U.first_occ(seq) if x != "P"]
+    order = [bu.clsof(x) for x in U.first_occ(seq)]
+    idx_order = [x for x in U.first_occ(seq) if x not in ("P", "D")]
 
     def fail(what, msg, **kw):
         chk.fail(classify(prog, what), msg, dict(rec, **kw))
@@ -316,8 +312,10 @@ def e2e_oracle(chk, bu, typ, path, final, rec):
     except ValueError as e:
         fail("parse", "cannot parse script/style/link elements of the output: %s" % e)
         return seq
-    exp_js_files = sorted({U.media_url(f) for i in idx_order for f in bu.declared(i, "js")})
-    exp_css_files = sorted({U.media_url(f) for i in idx_order for f in bu.declared(i, "css")})
+    js_files = U.first_occ([f for i in idx_order for f in bu.declared(i, "js")])
+    css_files = U.first_occ([f for i in idx_order for f in bu.declared(i, "css")])
+    exp_js_files = sorted({U.media_url(f) for f in js_files})
+    exp_css_files = sorted({U.media_url(f) for f in css_files})
     exp_js = [c.js.strip() for c in order if U.nonempty_str(c.js)]
     exp_css = [c.css.strip() for c in order if U.nonempty_str(c.css)]
     if typ == "document":
@@ -337,8 +335,31 @@ def e2e_oracle(chk, bu, typ, path, final, rec):
             fail("media", "Media JS files are not 'every file of the rendered classes exactly once'", expected=sorted(exp_js_files * kj), got=got_jf)
         if got_cf != sorted(exp_css_files * kc):
             fail("media", "Media CSS files are not 'every file of the rendered classes exactly once'", expected=sorted(exp_css_files * kc), got=got_cf)
-        if sum(1 for t in els if t[0] == "core") != kj:
+        ncore = sum(1 for t in els if t[0] == "core")
+        if path == U.PATHS[5]:
+            # DynamicComponent.render() post-processes twice (inner root render + itself): the core manager script - not a
+            # component asset, the statement is silent about it - may come twice; recorded, no alarm
+            chk.extra.setdefault("observations", {}).setdefault("core-script-count DynamicComponent.render (got, insertion points)", [])
+            ob = chk.extra["observations"]["core-script-count DynamicComponent.render (got, insertion points)"]
+            if (ncore, kj) not in ob and len(ob) < 8:
+                ob.append((ncore, kj))
+        elif ncore != kj:
             fail("inline", "core script count != insertion points")
+        # the same, on the raw BYTES of the final document (what theorem final_html_counts speaks about): every inline
+        # script / style and every Media URL attribute occurs copies(k) times as a byte string
+        for c in order:
+            for kind, k, tagname in (("js", kj, "script"), ("css", kc, "style")):
+                body = getattr(c, kind)
+                if U.nonempty_str(body):
+                    x = "<%s>%s</%s>" % (tagname, body.strip(), tagname)
+                    same = sum(1 for c2 in order if U.nonempty_str(getattr(c2, kind)) and getattr(c2, kind).strip() == body.strip())
+                    if final.count(x) != k * same:
+                        fail("inline", "byte string %r occurs %d times in the final document, expected %d" % (x, final.count(x), k * same))
+        for kind, k, files in (("js", kj, js_files), ("css", kc, css_files)):
+            for f in files:
+                x = U.media_attr(f, kind)
+                if final.count(" " + x) != k:
+                    fail("media", "byte string %r occurs %d times in the final document, expected %d" % (x, final.count(" " + x), k))
     else:
         execs = [t for t in els if t[0] == "exec"]
         if [t for t in els if t[0] != "exec"] or len(execs) > 1:
@@ -367,6 +388,8 @@ def e2e_oracle(chk, bu, typ, path, final, rec):
 
 def run_prog(chk, prog, typs, paths, terms, label, coq=True):
     """Render one program through the given paths; oracle on each; model cases appended to `terms`."""
+    for ft in U.features(prog):
+        chk.dist["feature:" + ft] += 1
     with U.Built(prog) as bu:
         for typ in typs:
             finals = {}
@@ -375,7 +398,8 @@ def run_prog(chk, prog, typs, paths, terms, label, coq=True):
                     continue
                 rec = {"kind": "e2e", "program": prog, "type": typ, "path": path}
                 try:
-                    mid, final = U.render_paths(bu, typ, path)
+                    with U.EmitRecorder() as er:
+                        mid, final = U.render_paths(bu, typ, path)
                 except Exception as e:  # noqa
                     chk.fail(classify(prog, "exception"), "rendering raised %s: %s" % (type(e).__name__, str(e)[:300]), rec)
                     continue
@@ -388,20 +412,39 @@ def run_prog(chk, prog, typs, paths, terms, label, coq=True):
                 chk.count(("e2e", json.dumps(prog, sort_keys=True), typ, path), nontriv, kind="e2e:%s:%s:%s" % (label, typ, path.split("(")[0][:14]),
                           sample={"page": U.page_src(prog), "classes": [c["name"] for c in prog["classes"]], "type": typ, "path": path,
                                   "instances": seq} if nontriv and label == "random" else None)
-                if mid is None or not coq:
+                # ---- emit side: one call of insert_component_dependencies_comment per rendered instance ----
+                exp_hashes = [bu.clsof(x)._class_hash for x in seq]
+                if path == U.PATHS[5]:
+                    exp_hashes = [bu.clsof("D")._class_hash] + exp_hashes
+                if sorted(c[0] for c in er.calls) != sorted(exp_hashes):
+                    chk.disagree("calls of insert_component_dependencies_comment != component instances visible in the document (one call per rendered instance)",
+                                 dict(rec, calls=[c[:2] for c in er.calls], visible=seq))
+                if mid is None:
                     continue
                 mid = str(mid)
                 with_page = path.startswith("Component.render")
-                clsof = lambda x: bu.page_cls if x == "P" else bu.classes[x]  # noqa: E731
                 mseq, _, _ = U.visible(mid)
                 if mseq != seq:
                     chk.fail(classify(prog, "visible"), "render_dependencies changed the visible text", rec)
-                terms["emit"].append("(%s, %s)" % (cstr(U.b(mid)), clist([cstr(U.b(clsof(x)._class_hash)) for x in mseq])))
-                terms["emit_cases"].append(rec)
+                cut = U.cut_at_markers(mid, er.calls)
+                if isinstance(cut, str):
+                    chk.disagree("rendered content is not text/marker/.../text of the recorded calls: " + cut, rec)
+                    continue
+                pieces, tail = cut
+                if [p[0] for _, p in pieces] != [bu.clsof(x)._class_hash for x in mseq]:
+                    chk.disagree("markers in document order != component instances visible in the document", dict(rec, visible=mseq))
+                if not coq:
+                    continue
+                terms["doc"].append(U.c_doc_case(mid, pieces, tail))
+                terms["doc_cases"].append(rec)
                 outcome, js_b, css_b = U.run_process(mid, typ)
                 terms["pipe"].append("(%s, %s, %s, %s)" % (U.c_rtype(typ), U.c_table(bu.table(with_page)), cstr(U.b(mid)), U.c_outcome(outcome)))
                 terms["pipe_cases"].append(rec)
                 if outcome[0] == "ok":
+                    text = outcome[1].decode("utf-8")
+                    ph_pieces, ph_tail = U.cut_at_placeholders(text)
+                    terms["phdoc"].append(U.c_phdoc_case(text, ph_pieces, ph_tail))
+                    terms["phdoc_cases"].append(rec)
                     fb, js_s, css_s = standins(final, js_b, css_b)
                     terms["asm"].append("(%s, %s, %s, %s, %s)" % (U.c_rtype(typ), cstr(outcome[1]), cstr(js_s), cstr(css_s), cstr(fb)))
                     terms["asm_cases"].append(rec)
@@ -446,17 +489,22 @@ def load_corpus():
 
 
 def new_terms():
-    return {k: [] for k in ("emit", "emit_cases", "pipe", "pipe_cases", "asm", "asm_cases")}
+    return {k: [] for k in ("doc", "doc_cases", "phdoc", "phdoc_cases", "pipe", "pipe_cases", "asm", "asm_cases")}
 
 
 def eval_e2e_terms(chk, terms, tag):
-    bad = C.coq_eval_cases("C04", tag + "emit", IMPORTS, "emit_case", "check_emit", terms["emit"], shard=250)
+    bad = C.coq_eval_cases("C04", tag + "doc", IMPORTS, "doc_case", "check_doc", terms["doc"], shard=120)
     for i in bad[:5]:
-        chk.disagree("markers harvested by the model != component instances visible in the document", terms["emit_cases"][i])
-    bad = C.coq_eval_cases("C04", tag + "pipe", IMPORTS, "pipe_case", "check_pipe", terms["pipe"], shard=250)
+        chk.disagree("rendered content != text/marker/.../text of the recorded insert_component_dependencies_comment calls with clean text and "
+                     "well-formed records (hypotheses of harvest_emit_roundtrip / final_html_counts)", terms["doc_cases"][i])
+    bad = C.coq_eval_cases("C04", tag + "phdoc", IMPORTS, "phdoc_case", "check_phdoc", terms["phdoc"], shard=120)
+    for i in bad[:5]:
+        chk.disagree("marker-free content != text/placeholder/.../text with placeholder-free text (hypotheses of placeholders_all_replaced / "
+                     "assembled_occurrences)", terms["phdoc_cases"][i])
+    bad = C.coq_eval_cases("C04", tag + "pipe", IMPORTS, "pipe_case", "check_pipe", terms["pipe"], shard=120)
     for i in bad[:5]:
         chk.disagree("model process != _process_dep_declarations on a rendered page", terms["pipe_cases"][i])
-    bad = C.coq_eval_cases("C04", tag + "asm", IMPORTS, "asm_case", "check_asm", terms["asm"], shard=250)
+    bad = C.coq_eval_cases("C04", tag + "asm", IMPORTS, "asm_case", "check_asm", terms["asm"], shard=120)
     for i in bad[:5]:
         chk.disagree("model assemble != render_dependencies on a rendered page", terms["asm_cases"][i])
 
@@ -471,25 +519,43 @@ def run(tier, seed):
     from django.forms.widgets import MediaOrderConflictWarning
     warnings.simplefilter("ignore", MediaOrderConflictWarning)
     chk = C.Check("C04", tier, seed)
+    phase = {}
+    t_ = [time.time()]
+
+    def lap(name):
+        phase[name] = round(time.time() - t_[0], 1)
+        t_[0] = time.time()
     chk.prove()
+    lap("prove")
     thorough = tier == "thorough"
     # ---- 0. corpus first ----
     terms = new_terms()
     for name, case in load_corpus():
         run_prog(chk, case["program"], case.get("types", ["document", "fragment"]), case.get("paths", U.PATHS), terms, "corpus")
+    lap("corpus")
     # ---- 1. matchers ----
     matcher_level(chk, thorough)
+    lap("matchers")
     # ---- 2. pipeline on synthetic documents ----
     keep = pipeline_level(chk, thorough)
+    lap("pipeline")
     # ---- 3. end to end ----
     for prog in small_programs():
         run_prog(chk, prog, ["document", "fragment"], [U.PATHS[0], U.PATHS[2]], terms, "small", coq=(len(prog["page"]) <= 2))
-    nrand = 3000 if thorough else 450
+    lap("e2e-small-render")
+    nrand = 3000 if thorough else 320
     for k in range(nrand):
         prog = U.gen_prog(chk.rng)
-        run_prog(chk, prog, ["document", "fragment"] if k % 2 == 0 else [chk.rng.choice(["document", "fragment"])],
-                 U.PATHS if k % 3 == 0 else [U.PATHS[0], chk.rng.choice(U.PATHS[1:])], terms, "random", coq=(k % 2 == 0))
+        if k % 3 == 0:
+            paths = U.PATHS
+        else:
+            paths = [U.PATHS[0 if k % 2 else 3], chk.rng.choice([U.PATHS[1], U.PATHS[2], U.PATHS[4], U.PATHS[4], U.PATHS[5]])]
+        run_prog(chk, prog, ["document", "fragment"] if k % 2 == 0 else [chk.rng.choice(["document", "fragment"])], paths, terms, "random",
+                 coq=(k % 2 == 0))
+    lap("e2e-random-render")
     eval_e2e_terms(chk, terms, "e2e")
+    lap("e2e-coq")
+    chk.extra["phase_wall_s"] = phase
     del keep
     chk.assumptions = [
         "the page's visible text identifies component instances ([[i]] written by each generated template); 'first appearance in the document' is read from it",
